@@ -208,17 +208,17 @@ def rlGo (L : Nat) : Nat → Nat → List Nat → Res (List Nat)
   | fuel + 1, n, b :: rest =>
     if b = 128 then .ok []
     else if b < 128 then
-      let count := b + 1
-      if count > rest.length then .err .decode
-      else if n + count > L then .err .decode
-      else (rlGo L fuel (n + count) (rest.drop count)).pre (rest.take count)
+      -- literal packet, `count = b + 1`
+      if b + 1 > rest.length then .err .decode
+      else if n + (b + 1) > L then .err .decode
+      else (rlGo L fuel (n + (b + 1)) (rest.drop (b + 1))).pre (rest.take (b + 1))
     else
       match rest with
       | [] => .err .decode
       | x :: rest' =>
-        let count := 257 - b
-        if n + count > L then .err .decode
-        else (rlGo L fuel (n + count) rest').pre (List.replicate count x)
+        -- repeat packet, `count = (-length) + 1 = 257 - b`
+        if n + (257 - b) > L then .err .decode
+        else (rlGo L fuel (n + (257 - b)) rest').pre (List.replicate (257 - b) x)
 
 def rlDec (L : Nat) (data : List Nat) : Res (List Nat) :=
   rlGo L (data.length + 1) 0 data
@@ -261,6 +261,21 @@ structure LzwSt where
   codeSize : Nat
   prev : Option Nat
 
+/-- the string a code stands for when a previous code exists: `dictionary[code].clone()`, or in the
+"code == next entry" case `dictionary[prev] + dictionary[prev][0]` -/
+def lzwString (dict : Array (List Nat)) (prev code : Nat) : List Nat :=
+  if code < dict.size then dict.getD code []
+  else (dict.getD prev []) ++ [(dict.getD prev []).headD 0]
+
+/-- "Add new entry to dictionary" + "Increase code size if necessary" -/
+def lzwGrow (early : Bool) (dict : Array (List Nat)) (codeSize prev : Nat) (string : List Nat) :
+    Array (List Nat) × Nat :=
+  if dict.size < 4096 then
+    ((dict.push ((dict.getD prev []) ++ [string.headD 0])),
+     if (dict.size + 1 ≥ (if early then 2 ^ codeSize - 1 else 2 ^ codeSize)) ∧ codeSize < 12
+     then codeSize + 1 else codeSize)
+  else (dict, codeSize)
+
 /-- the `while let Some(c) = bit_reader.read_bits(code_size)` loop; `n` = `result.len()` -/
 def lzwGo (L : Nat) (early : Bool) : Nat → Nat → LzwSt → Res (List Nat)
   | 0, _, _ => .ok []
@@ -274,25 +289,22 @@ def lzwGo (L : Nat) (early : Bool) : Nat → Nat → LzwSt → Res (List Nat)
       else
         match st.prev with
         | some prev =>
-          let pstr := st.dict.getD prev []
-          if code < st.dict.size ∨ code = st.dict.size then
-            let string := if code < st.dict.size then st.dict.getD code [] else pstr ++ [pstr.headD 0]
-            if n + string.length > L then .err .decode
+          if code ≤ st.dict.size then
+            -- `result.extend_from_slice(&string); if result.len() > max_bytes { Err }`
+            if n + (lzwString st.dict prev code).length > L then .err .decode
             else
-              let (dict, codeSize) :=
-                if st.dict.size < 4096 then
-                  let dict := st.dict.push (pstr ++ [string.headD 0])
-                  let threshold := if early then 2 ^ st.codeSize - 1 else 2 ^ st.codeSize
-                  (dict, if dict.size ≥ threshold ∧ st.codeSize < 12 then st.codeSize + 1 else st.codeSize)
-                else (st.dict, st.codeSize)
-              (lzwGo L early fuel (n + string.length)
-                { rd := rd, dict := dict, codeSize := codeSize, prev := some code }).pre string
+              (lzwGo L early fuel (n + (lzwString st.dict prev code).length)
+                { rd := rd
+                  dict := (lzwGrow early st.dict st.codeSize prev (lzwString st.dict prev code)).1
+                  codeSize := (lzwGrow early st.dict st.codeSize prev (lzwString st.dict prev code)).2
+                  prev := some code }).pre (lzwString st.dict prev code)
           else .err .decode
         | none =>
+          -- first code after Clear: NO limit check
           if code < st.dict.size then
-            let string := st.dict.getD code []
-            (lzwGo L early fuel (n + string.length)
-              { rd := rd, dict := st.dict, codeSize := st.codeSize, prev := some code }).pre string
+            (lzwGo L early fuel (n + (st.dict.getD code []).length)
+              { rd := rd, dict := st.dict, codeSize := st.codeSize, prev := some code }).pre
+              (st.dict.getD code [])
           else .err .decode
 
 /-- `decode_lzw_with_limit` for a given `early_change` -/
@@ -371,8 +383,8 @@ def pngRows (bpp rowBytes : Nat) : Nat → List Nat → List Nat → Res (List N
     | tag :: rest =>
       if tag > 4 then .err .decode
       else
-        let out := unfilterRow tag bpp prev (rest.take rowBytes)
-        (pngRows bpp rowBytes k out (rest.drop rowBytes)).pre out
+        (pngRows bpp rowBytes k (unfilterRow tag bpp prev (rest.take rowBytes)) (rest.drop rowBytes)).pre
+          (unfilterRow tag bpp prev (rest.take rowBytes))
 
 /-- `apply_png_predictor_advanced` -/
 def pngAdvanced (data : List Nat) (d : Dict) : Res (List Nat) :=
